@@ -29,6 +29,7 @@ type Sim struct {
 	Ids    [][]byte // group ids = transport identities of the members
 	M      []*SimMember
 	Prev   *Sim // a finished earlier session with the same keys (source of replayed messages)
+	PrevF  *Sim // a finished earlier session with FRESH keys, the way genPub draws them per Grouping call
 	rng    *h.Rng
 	polys  map[string][]*big.Int
 	Sealed []SealedInfo // what the adversary sealed (for the oracle)
@@ -131,6 +132,66 @@ func (s *Sim) WithPrev() {
 		}
 	}
 	s.Prev = p
+}
+
+// WithPrevFresh runs a complete honest session first in which every member uses a key of that session only:
+// what an earlier Grouping call of the real pipeline looks like (genPub draws the key per call).
+func (s *Sim) WithPrevFresh() {
+	p := &Sim{N: s.N, T: s.T, Sid: s.Sid, Ids: s.Ids, rng: s.rng, polys: map[string][]*big.Int{}, timeout: s.timeout, Effective: map[string]bool{}}
+	for k := 0; k < s.N; k++ {
+		sc := Scalar(NonZero(s.rng))
+		p.Secs = append(p.Secs, sc)
+		p.Pubs = append(p.Pubs, Pub(sc))
+	}
+	p.reset()
+	p.runHonest()
+	s.PrevF = p
+}
+
+func (p *Sim) runHonest() {
+	for i := 0; i < p.N; i++ {
+		p.Start(i)
+	}
+	for i := 0; i < p.N; i++ {
+		for j := 0; j < p.N; j++ {
+			if j != i {
+				p.DeliverPk(j, i)
+			}
+		}
+	}
+	for i := 0; i < p.N; i++ {
+		for j := 0; j < p.N; j++ {
+			if j != i {
+				p.DeliverDeal(j, i)
+			}
+		}
+	}
+	for i := 0; i < p.N; i++ {
+		for k := 0; k < p.N; k++ {
+			if k != i {
+				p.DeliverResps(k, i)
+			}
+		}
+	}
+}
+
+// OracleAnswer hands the adversarial deal D.<claim>.<sealer>.<member>.<variant> to a FRESH real generator of
+// `member` with the member's long-term key of this Sim (another run with the same key) and returns the signed
+// response ProcessDeal answers with (nil: error).
+func (s *Sim) OracleAnswer(member, claim, sealer int, variant string) *dkg.Response {
+	gen, err := dkg.VerifNewDistKeyGenerator(Suite, s.Secs[member], s.Pubs, s.T, Scalar(NonZero(s.rng)))
+	if err != nil {
+		return nil
+	}
+	d := s.AdvDeal(claim, sealer, member, variant)
+	var out *dkg.Response
+	func() {
+		defer func() { recover() }()
+		if r, err := gen.ProcessDeal(d); err == nil {
+			out = r
+		}
+	}()
+	return out
 }
 
 func drain(errc chan error) chan string {
